@@ -6,6 +6,8 @@
 //   -DVH_ROWS="file"    : generated rows of this translation unit (one statement per line)
 #include "types_support.hpp"
 
+#include <cstdint>
+
 #if defined(VH_STD)
     #include <concepts>
     #include <limits>
